@@ -52,14 +52,32 @@ package codec
 //@   ensures m == nil ==> result == o
 //@   ensures m != nil && o == nil ==> result == m
 
+// Value equality: only values of the same kind can be equal (the byte comparison of the
+// encoded values is left to an uninterpreted relation).
+//@ func Value.Equal
+//@   trusted
+//@   ensures result == ufBool_valeq(v, w)
+//@   ensures v.Type != w.Type ==> !result
+//@   assigns nothing
+
+//@ func EncodeChangeEvent
+//@   assigns nothing
+//@   safety[C15]
+
+//@ func IsLegacyChangeEvent
+//@   assigns nothing
+//@   safety[C15]
+
 // A change event that fails to decode yields no values at all (it is discarded as a whole).
 //@ func DecodeChangeEvent
 //@   assigns nothing
 //@   ensures[C15] result1 != nil ==> result0 == nil
+//@   ensures[C01] result0 == nil || fresh(result0)
 //@   safety[C15]
 //@ func DecodeLegacyChangeEvent
 //@   assigns nothing
 //@   ensures[C15] result1 != nil ==> result0 == nil
+//@   ensures[C01] result0 == nil || fresh(result0)
 //@   safety[C15]
 // An add event is accepted only with a proper value; a failed decode yields nothing.
 //@ func DecodeAddEvent
